@@ -752,7 +752,7 @@ def run(ctx):
         return mem_allow(t, a) or (t.startswith('Librfn.C09.TieSched.') and '._native.bv_decide.ax_' in a
                                    and (a.startswith('Librfn.C02.Tie.duetime_cmp_generated.') or a.startswith('Librfn.C09.Tie.') or a.startswith('Librfn.Gen.Mem.')))
     tie_common.prove(ctx, ['ListSeq', 'FibreSeq'], ['Librfn.Props.C09'], REQUIRED, 'Librfn.Props.C09Tie', 'Librfn.C09.Tie', extra_allow=allow2,
-                     dependents=[('Librfn.Props.C09TieSched', 'Librfn.C09.TieSched')])
+                     dependents=[('Librfn.Props.C09TieSched', 'Librfn.C09.TieSched')], sig_only={'FibreSeq': ['duetime_cmp']})
     exe = harness(ctx)
     quick = ctx.tier == 'quick'
     hs = corpus()
